@@ -165,6 +165,7 @@ func runC15(cx *Ctx, r *Report) {
 			}
 		}
 	}
+	cx.lostUpdateRule(r, []string{"mt"}, 8)
 	r.requireCount("sub-guard", 2)
 	r.requireCount("add-guard", 4)
 	r.requireCount("pairing", 4)
